@@ -124,7 +124,8 @@ theorem C01_partial_tf (tf : Int) (htf : 0 < tf) (fill : Bool) (k : Kind F) (nam
 
 /-- **C01, partial: all covered TREES** (`CoveredTree`: every leaf class and the composite kinds
 whose refinement is proved – the data-series kinds VWAP, STDEV, RSI, ATR with its prior TR
-helper, KC with its ATR and EMA helpers), base timeframe.  If the
+helper, KC with its ATR and EMA helpers, STDEVTHRES and BBANDS with their STDEV / SMA helpers),
+base timeframe.  If the
 live history returns, the batch run returns the same candles: OHLCV, stamps, the node's readings
 and its helper series. -/
 theorem C01_trees_base (k : Kind F) (name : String) (round : Nat) (hk : CoveredTree name k)
@@ -252,6 +253,18 @@ example : (match candlesOf (runIndicator (mkTop (.kc 2 "close" (.int 2)) "KC_2" 
     | .ok cs => cs.map (fun c => ((dlookup "KC_2" c.inds).isSome, (c.subs.map (·.1))))
     | .error _ => []) = [(true, ["KC_2_ATR_TR", "KC_2_ATR", "KC_2_EMA"]), (true, ["KC_2_ATR_TR", "KC_2_ATR", "KC_2_EMA"]),
       (true, ["KC_2_ATR_TR", "KC_2_ATR", "KC_2_EMA"]), (true, ["KC_2_ATR_TR", "KC_2_ATR", "KC_2_EMA"])] := by
+  decide +kernel
+/-- Bollinger Bands (STDEV data helper + SMA helper) and STDEVTHRES (STDEV data helper) -/
+example : CoveredTree (F := Int) "BB_2" (.bbands 2 "close") :=
+  .bbands 2 "close" (by decide) ⟨by decide, by decide, ⟨by decide, by decide, by decide⟩, by decide, by decide,
+    by decide, by decide, by decide⟩ (by decide)
+example : CoveredTree (F := Int) "TH_2" (.stdevthres 2 "close" (.int 1)) :=
+  .stdevthres 2 "close" _ (by decide) ⟨by decide, ⟨by decide, by decide, by decide⟩, by decide, by decide⟩
+    (by decide)
+example : (match candlesOf (runIndicator (mkTop (.bbands 2 "close") "BB_2" 4) {} [] [demo.take 2, demo.drop 2]) with
+    | .ok cs => cs.map (fun c => ((dlookup "BB_2" c.inds).isSome, (c.subs.map (·.1))))
+    | .error _ => []) = [(true, ["BB_2_STDEV_data", "BB_2_STDEV", "BB_2_SMA"]), (true, ["BB_2_STDEV_data", "BB_2_STDEV", "BB_2_SMA"]),
+      (true, ["BB_2_STDEV_data", "BB_2_STDEV", "BB_2_SMA"]), (true, ["BB_2_STDEV_data", "BB_2_STDEV", "BB_2_SMA"])] := by
   decide +kernel
 /-- VWAP over the demo, live = batch, with its `VWAP_3_data` helper series written on every candle -/
 example : (match candlesOf (runIndicator (mkTop (.vwap 3) "VWAP_3" 4) {} [] [demo.take 1, demo.drop 1]) with
